@@ -103,7 +103,7 @@ v("C04", "clock-in-subdir", LIB, "\tdir_sec = (sample_sec / hdf5_data_object->su
 v("C04", "config-field-modified", LIB, "\t/* advance state */\n", "\thdf5_data_object->file_cadence_millisecs += 0;\n\t/* advance state */\n", rules=["C04.R2"])
 v("C04", "second-ceil-on-current-file", LIB, "digital_rf_get_sample_ceil(next_file_sec_part, next_file_millisec_part * 1000000000,",
   "digital_rf_get_sample_ceil(next_file_sec_part, file_millisec_part * 1000000000,", rules=["C04.R3"])
-v("C04", "basename-compare-dropped", LIB, "\t\t\t|| strcmp(hdf5_data_object->basename, basename))\n\t\tfile_exists = 0;", ")\n\t\tfile_exists = 0;", rules=["C04.R4"])
+v("C04", "basename-compare-dropped", LIB, "\t\t\t|| strcmp(hdf5_data_object->sub_directory, subdir) || strcmp(hdf5_data_object->basename, basename))\n\t\tfile_exists = 0;", "\t\t\t|| strcmp(hdf5_data_object->sub_directory, subdir))\n\t\tfile_exists = 0;", rules=["C04.R4"])
 v("C04", "modulus-test-deleted-c", LIB, "\tif (subdir_cadence_secs*1000 % file_cadence_millisecs != 0)\n\t{", "\tif (0)\n\t{", rules=["C04.R5"])
 
 # ---- C05 / C19 -----------------------------------------------------------------------------------------------
@@ -211,7 +211,7 @@ v(["C12", "C20"], "string-sort-again", DM, "                    groups.sort(key=
 v(["C12", "C13"], "writer-float-placement", DM, "samples, lambda s: (int(s) * srd) // (srn * fcs)", "samples, lambda s: np.uint64(s / (fcs * self._samples_per_second))", rules=["C13.R1", "C12.R4"])
 v("C13", "writer-only-different-formula", DM, "samples, lambda s: (int(s) * srd) // (srn * fcs)", "samples, lambda s: (int(s) * srn) // (srd * fcs)", rules=["C13.R2"])
 v("C13", "reader-extension", DM, 'file_basename = "%s@%i.h5" % (self._file_name, valid_file_ts)', 'file_basename = "%s@%i.hdf5" % (self._file_name, valid_file_ts)', rules=["C13.R3"])
-v("C20", "reader-deletes-on-error", RF, "                if not os.access(fullfile, os.R_OK):\n                    continue\n", "                if not os.access(fullfile, os.R_OK):\n                    os.remove(fullfile)\n                    continue\n", rules=["C20.R1"])
+v("C20", "reader-deletes-on-error", RF, "                if os.access(fullfile, os.R_OK):\n                    present.append(fullfile)\n", "                if os.access(fullfile, os.R_OK):\n                    present.append(fullfile)\n                else:\n                    os.remove(fullfile)\n", rules=["C20.R1"])
 v(["C20", "C02"], "bounds-opens-append", DM, '                with h5py.File(path, "r") as f:\n                    groups = list(f.keys())\n                    # sample indices are stored as strings, sort numerically\n                    groups.sort(key=int)\n                    first_sample',
   '                with h5py.File(path, "a") as f:\n                    groups = list(f.keys())\n                    # sample indices are stored as strings, sort numerically\n                    groups.sort(key=int)\n                    first_sample', rules=["C20.R1"])
 v("C20", "file-kept-open", DM, "        properties_file_path = os.path.join(self._metadata_dir, \"dmd_properties.h5\")\n        with h5py.File(properties_file_path, \"w\") as f:\n",
@@ -250,8 +250,8 @@ v("C15", "props-keyed-on-data-flag", WD, "        elif include_drf_properties:\n
 v("C15", "created-deleted-swapped", WD, "                event = FileDeletedEvent(event.src_path)\n            elif dest_match and not src_match:\n                event = FileCreatedEvent(event.dest_path)",
   "                event = FileCreatedEvent(event.src_path)\n            elif dest_match and not src_match:\n                event = FileDeletedEvent(event.dest_path)", rules=["C15.R4"])
 v("C15", "window-exclusive", WD, "if self.starttime is not None and time < self.starttime:", "if self.starttime is not None and time <= self.starttime:", rules=["C15.R5"])
-v("C15", "unguarded-group", WD, "                try:\n                    msecs = int(match.group(\"frac\"))\n                except (IndexError, TypeError):\n                    msecs = 0\n",
-  "                msecs = int(match.group(\"frac\"))\n", rules=["C15.R5"])
+v("C15", "unguarded-group", WD, "        try:\n            msecs = int(match.group(\"frac\"))\n        except (IndexError, TypeError):\n            msecs = 0\n",
+  "        msecs = int(match.group(\"frac\"))\n", rules=["C15.R5"])
 
 # ---- C16 / C17 / C18 -----------------------------------------------------------------------------------------
 v("C16", "remove-untracked-path", RB, "        self.remove_files([event.src_path])\n\n    def on_modified", "        os.remove(event.src_path)\n        self.remove_files([event.src_path])\n\n    def on_modified", rules=["C16.R1"])
@@ -266,8 +266,8 @@ v("C16", "if-instead-of-while", RB, "            while self._queue_duration(queu
 v("C17", "mirror-to-final", MR, "self.mirror_fun(src_path, tmp_dest_path)\n                os.rename(tmp_dest_path, dest_path)", "self.mirror_fun(src_path, dest_path)", rules=["C17.R1"])
 v("C17", "rename-before-stage", MR, "self.mirror_fun(src_path, tmp_dest_path)\n                os.rename(tmp_dest_path, dest_path)", "os.rename(tmp_dest_path, dest_path)\n                self.mirror_fun(src_path, tmp_dest_path)", rules=["C17.R1"])
 v("C17", "dot-prefix", MR, 'os.path.join(dest_dir, "tmp." + dest_name)', 'os.path.join(dest_dir, "." + dest_name)', rules=["C17.R1"])
-v("C17", "makedirs-outside-try", MR, "        try:\n            if not os.path.exists(dest_dir):\n                os.makedirs(dest_dir)\n            if not os.path.exists(dest_path)",
-  "        if not os.path.exists(dest_dir):\n            os.makedirs(dest_dir)\n        try:\n            if not os.path.exists(dest_path)", rules=["C17.R2"])
+v("C17", "makedirs-outside-try", MR, "        try:\n            if not os.path.exists(dest_dir):\n                os.makedirs(dest_dir)\n",
+  "        if not os.path.exists(dest_dir):\n            os.makedirs(dest_dir)\n        try:\n", rules=["C17.R2"])
 v("C17", "move-handler-takes-metadata", MR, "                include_drf=True,\n                include_dmd=False,\n                include_drf_properties=False,", "                include_drf=True,\n                include_dmd=True,\n                include_drf_properties=False,", rules=["C17.R3"])
 v("C17", "copy-handler-keeps-rf-in-move", MR, 'include_drf=(self.include_drf and self.method in ("copy", "link")),', "include_drf=self.include_drf,", rules=["C17.R3"])
 v("C17", "ringbuffer-count-2", MR, "                count=1,\n", "                count=2,\n", rules=["C17.R3"])
